@@ -132,7 +132,7 @@ def run(ctx: core.Ctx) -> int:
     whole = "".join(txt)
     front = ("current_state,transitions=frontier[0]" in txt and "frontier=frontier[1:]" in txt) or "current_state,transitions=frontier.pop(0)" in txt \
         or "current_state,transitions=frontier.popleft()" in txt or ("current_state,transitions=frontier[0]" in txt and "delfrontier[0]" in txt)
-    lifo = "frontier.pop()" in whole or "frontier[-1]" in whole or "frontier.insert(0" in whole or "frontier.appendleft(" in whole
+    lifo = "=frontier.pop()" in whole or "=frontier[-1]" in whole or "frontier.insert(0" in whole or "frontier.appendleft(" in whole
     goal = any(t.startswith("ifcurrent_state.state_id()==end_state:") and "returntransitions" in t for t in txt)
     if loop is not None and not front and not lifo:
         ctx.error(f"{where}: how the frontier is popped is not an enumerated idiom")
